@@ -49,7 +49,7 @@ func yield(point string) {
 	// At the end of the program the device session is closed first (a real
 	// ssh child ends with its parent), so that the node's state is written
 	// back and the session marker removed before the process exits.
-	if len(point) > 4 && point[len(point)-4:] == ":end" && sess != nil {
+	if postSession(point) && sess != nil {
 		select {
 		case <-devDone:
 		case <-time.After(100 * time.Millisecond):
@@ -138,6 +138,15 @@ func init() {
 		dev := &cisco.Device{Node: cisco.NewNode(nf.Conf), Startup: nf.Startup, Log: log, PrintOpt: &cisco.PrintOpt{},
 			Password: nf.Password, Banner: nf.Banner, FaultSeq: -1, Sess: s}
 		dev.OnLine = func(k int, line string) {
+			// The tool sends the final "exit" without waiting for an answer
+			// and goes on; from here on main and device goroutine run side
+			// by side.  The device does not park any more, and the main
+			// goroutine waits for the end of the session at its next point
+			// (postSession), so that the process as a whole is at rest
+			// whenever the orchestrator sees it parked.
+			if line == "exit" && !dev.Node.InConfig {
+				return
+			}
 			yield(fmt.Sprintf("dev:%d", k))
 		}
 		go func() {
@@ -157,4 +166,14 @@ func init() {
 		}()
 		return s.Spawn(timeout)
 	}
+}
+
+// postSession: hook points that lie behind the device session of a run.
+func postSession(point string) bool {
+	for _, sfx := range []string{":end", ":after-run", ":before-status", ":after-status", "status:before-write", "status:after-write"} {
+		if strings.HasSuffix(point, sfx) {
+			return true
+		}
+	}
+	return false
 }
